@@ -1,3 +1,25 @@
+/-
+  Props/C17Catmull.lean — C17, **Catmull-Rom clause: the chord-error bound** in exact real arithmetic (`P = F = ℝ`, the
+  instance of Lemmas/RealScalar.lean). DESIGN.md 5.17 listed it as not proved ("catmull chord error", oracle bound
+  `max|B''|/(8·50²)` per span).
+
+  `approximate_catmull` / `catmull_subpath` (CATMULL_DETAIL = 50) sample the cubic of each span at `c/50` and `(c+1)/50`,
+  `c = 0..49`, and the emitted points are joined by straight segments.
+
+  * `catmull_output_get`: over ℝ the call emits `100 (n − 1)` vertices; vertex `100 j + 2c` is `q_j(c/50)`, vertex
+    `100 j + 2c + 1` is `q_j((c+1)/50)`, `q_j = catmullSpanExact pts j` the exact cubic of span `j` (control points
+    `catmullCtl pts j`, Props/C17CatmullChord.lean); `catmullSpanExact_joint`: `q_j(1) = q_{j+1}(0)`.
+  * **`catmull_within_bound_real`**: with the Euclidean distance (the model's own `Pos::distance`; `√`, not squared), for
+    every span `j`: every `q_j(t)`, `t ∈ [0,1]`, is within `catmullSpanBound pts j = (1/50)²/8 · sup_{[0,1]} ‖q_j''‖` of a
+    point of a chord of the emitted polyline, and every point of every chord `out[k] out[k+1]` of the emitted polyline is
+    within `catmullSpanBound pts (k/100)` of a point of the exact curve of span `k/100` (same parameter in both directions).
+    The bound is sharp for the same-parameter distance (`catmull_chord_error_sharp`).
+  * non-vacuity: `squarePts = (0,0), (100,0), (100,100), (0,100)`: all three span bounds are `< 0.02` px
+    (`squarePts_bounds`; the middle span: `catmullBound_example`, `≈ 0.0158`), and the headline applied end to end.
+
+  Not covered: the osu!-mode simplification `catmullSimplify` applied afterwards by `calculate_subpath` (it removes
+  vertices, which changes the polyline); IEEE arithmetic (rounding of the evaluation of the cubic).
+-/
 import RosuModel.Props.C17CatmullChord
 set_option linter.unusedSectionVars false
 set_option linter.unusedVariables false
@@ -222,5 +244,75 @@ theorem catmull_within_bound_real (pts out : List (Pos ℝ)) (h2 : 2 ≤ pts.len
       rw [e0, e1, segAt_self, distance_self]
       unfold catmullSpanBound
       exact catmullBound_nonneg _ _ _ _
+
+/-! ### non-vacuity: a square -/
+
+/-- the bound of the concrete span `(0,0), (100,0), (100,100), (0,100)` is below a tenth of a pixel (it is `≈ 0.0158`). -/
+theorem catmullBound_example_lt_tenth :
+    catmullBound ⟨0, 0⟩ ⟨100, 0⟩ ⟨100, 100⟩ ⟨0, 100⟩ < 1 / 10 :=
+  lt_trans catmullBound_example.1 (by norm_num)
+
+/-- the hypotheses of `catmull_chord_within` are satisfiable: chord `7`, its middle. -/
+example : eDist (catmullExact ⟨0, 0⟩ ⟨100, 0⟩ ⟨100, 100⟩ ⟨0, 100⟩ (((7 : ℕ) + 1 / 2) / 50))
+    (segPt (catmullExact ⟨0, 0⟩ ⟨100, 0⟩ ⟨100, 100⟩ ⟨0, 100⟩ (((7 : ℕ) : ℝ) / 50))
+      (catmullExact ⟨0, 0⟩ ⟨100, 0⟩ ⟨100, 100⟩ ⟨0, 100⟩ ((((7 : ℕ) : ℝ) + 1) / 50)) (1 / 2)) < 1 / 10 :=
+  lt_of_le_of_lt (catmull_chord_within _ _ _ _ 7 (by norm_num) (1 / 2) (by norm_num) (by norm_num))
+    catmullBound_example_lt_tenth
+
+/-- the control points of the non-vacuity example: a square. -/
+noncomputable def squarePts : List (Pos ℝ) := [⟨0, 0⟩, ⟨100, 0⟩, ⟨100, 100⟩, ⟨0, 100⟩]
+
+theorem squarePts_ctl :
+    catmullCtl squarePts 0 = (⟨0, 0⟩, ⟨0, 0⟩, ⟨100, 0⟩, ⟨100, 100⟩) ∧
+    catmullCtl squarePts 1 = (⟨0, 0⟩, ⟨100, 0⟩, ⟨100, 100⟩, ⟨0, 100⟩) ∧
+    catmullCtl squarePts 2 = (⟨100, 0⟩, ⟨100, 100⟩, ⟨0, 100⟩, ⟨-100, 100⟩) := by
+  refine ⟨rfl, rfl, ?_⟩
+  show ((⟨100, 0⟩ : Pos ℝ), (⟨100, 100⟩ : Pos ℝ), (⟨0, 100⟩ : Pos ℝ), extrapolate (⟨0, 100⟩ : Pos ℝ) ⟨100, 100⟩) = _
+  have : extrapolate (⟨0, 100⟩ : Pos ℝ) ⟨100, 100⟩ = ⟨-100, 100⟩ := by
+    show (⟨(0 : ℝ) * ((2 : ℕ) : ℝ) - 100, (100 : ℝ) * ((2 : ℕ) : ℝ) - 100⟩ : Pos ℝ) = _
+    apply Pos.ext' <;> norm_num
+  rw [this]
+
+theorem squarePts_bounds : ∀ j, j + 1 < squarePts.length → catmullSpanBound squarePts j < 2 / 100 := by
+  intro j hj
+  have hj' : j = 0 ∨ j = 1 ∨ j = 2 := by
+    have : squarePts.length = 4 := rfl
+    omega
+  obtain ⟨c0, c1, c2⟩ := squarePts_ctl
+  rcases hj' with rfl | rfl | rfl
+  · unfold catmullSpanBound
+    rw [c0, catmullBound_eq, div_lt_iff₀ (by norm_num)]
+    unfold catmullM
+    apply max_lt
+    · unfold eNorm catmullAcc catmullAccCoord
+      rw [Real.sqrt_lt' (by norm_num)]; norm_num
+    · unfold eNorm catmullAcc catmullAccCoord
+      rw [Real.sqrt_lt' (by norm_num)]; norm_num
+  · unfold catmullSpanBound
+    rw [c1]
+    exact lt_trans catmullBound_example.1 (by norm_num)
+  · unfold catmullSpanBound
+    rw [c2, catmullBound_eq, div_lt_iff₀ (by norm_num)]
+    unfold catmullM
+    apply max_lt
+    · unfold eNorm catmullAcc catmullAccCoord
+      rw [Real.sqrt_lt' (by norm_num)]; norm_num
+    · unfold eNorm catmullAcc catmullAccCoord
+      rw [Real.sqrt_lt' (by norm_num)]; norm_num
+
+/-- the hypotheses of `catmull_within_bound_real` are satisfiable, end to end: the square is accepted, `300` vertices are
+emitted, and every point of the exact curve of the middle span (`(100,0) → (100,100)`) is less than `0.02` px from the
+emitted polyline. -/
+example : ∃ out, approximateCatmull squarePts = .ok out ∧ out.length = 300 ∧
+    ∀ t, 0 ≤ t → t ≤ 1 → ∃ (k : Nat) (hk : k + 1 < out.length), ∃ l, 0 ≤ l ∧ l ≤ 1 ∧
+      Pos.distance ℝ (catmullSpanExact squarePts 1 t) (segAt (out[k]'(by omega)) (out[k + 1]'hk) l) < 2 / 100 := by
+  have h2 : 2 ≤ squarePts.length := by show 2 ≤ 4; norm_num
+  refine ⟨_, approximate_catmull_spans squarePts h2, ?_, ?_⟩
+  · exact (catmull_within_bound_real squarePts _ h2 (approximate_catmull_spans squarePts h2)).1
+  · intro t ht0 ht1
+    obtain ⟨k, hk, _, l, hl0, hl1, hd⟩ :=
+      (catmull_within_bound_real squarePts _ h2 (approximate_catmull_spans squarePts h2)).2.1 1
+        (by show 2 < 4; norm_num) t ht0 ht1
+    exact ⟨k, hk, l, hl0, hl1, lt_of_le_of_lt hd (squarePts_bounds 1 (by show 2 < 4; norm_num))⟩
 
 end Rosu.C17
